@@ -140,7 +140,16 @@ class Impl(object):
             elif k == 'refuse':
                 fut, factory = self.attempts.pop(0)
                 if not fut.done():
-                    fut.set_exception(ConnectionRefusedError('refused'))
+                    # the ways create_connection fails: refused; every address of several refused (a plain OSError);
+                    # a connect timeout; a name that does not resolve; network unreachable
+                    how = ev[1] if len(ev) > 1 else 'refused'
+                    import socket as _socket
+                    exc = {'refused': ConnectionRefusedError('refused'),
+                           'multi': OSError('Multiple exceptions: [Errno 111] Connect call failed, [Errno 111] Connect call failed'),
+                           'timeout': TimeoutError('timed out'),
+                           'dns': _socket.gaierror(-2, 'Name or service not known'),
+                           'unreach': OSError(101, 'Network is unreachable')}[how]
+                    fut.set_exception(exc)
             elif k == 'data':
                 try:
                     self.proto.data_received(hx(ev[1]))
@@ -259,7 +268,7 @@ def gen_and_run(rng, tier, ident, secret, profile):
             live = impl.tr is not None and not impl.tr.gone
             can_data = live and not impl.tr.closing
             if impl.attempts and r < 0.35:
-                do(['accept'] if rng.random() < (0.75 if profile != 'faults' else 0.45) else ['refuse'])
+                do(['accept'] if rng.random() < (0.75 if profile != 'faults' else 0.45) else rng.choice([['refuse'], ['refuse'], ['refuse', 'multi'], ['refuse', 'timeout'], ['refuse', 'dns'], ['refuse', 'unreach']]))
                 got_info = False
                 tails = b''
                 continue
@@ -360,7 +369,7 @@ def sweep_scripts(make_impl, canon_fn, twisted, double=False):
                 if pending():
                     if st['refuse_next']:
                         st['refuse_next'] -= 1
-                        do(['refuse'])
+                        do(['refuse'] if twisted else [['refuse'], ['refuse', 'multi'], ['refuse', 'timeout'], ['refuse', 'dns']][len(events) % 4])
                     else:
                         do(['accept'])
                         st['info'] = info()
